@@ -178,7 +178,7 @@ def check_reentrant(ctx, rule, side):
     bad = False
     n = 0
     for k in range(N):
-        for j in list(range(N)) + ["new-first", "new-last"]:
+        for j in list(range(N)) + ["new-first", "new-last", "rereg", "nested"]:
             n += 1
 
             def effect(it, callee, args, kwargs, ev, k=k, j=j):
@@ -188,8 +188,37 @@ def check_reentrant(ctx, rule, side):
                 if callee.fi.name == "accepts":
                     return Const(True)
                 if callee.fi.name == deliver and isinstance(me, Obj):
+                    if j == "nested" and args and args[0] is getattr(it, "inner_msg", None):
+                        it.served_inner.append(me.label)
+                        return Const(None)
                     it.served.append(me.label)
                     peers = it.world.devices if is_dev else it.world.clients
+                    if me is peers[k] and not it.done and j == "nested":
+                        # the peer being served pushes a message of its own through the same router before it returns
+                        # (a driver that snoops on another one asks for its properties; a client that answers at once)
+                        it.done = True
+                        it.inner_msg = message_obj(p, mcls, device=None if is_dev else "A")
+                        it.inner_msg.label = "inner message"
+                        it.run_function(Fn(f, it.world.router), [it.inner_msg, Const(None)], {})
+                        return Const(None)
+                    if me is peers[k] and not it.done and j == "rereg":
+                        # the peer renews its registration from inside its own delivery: leaves and registers again
+                        it.done = True
+                        nev = len(it.events)
+                        saved = dict(it.opts)
+                        it.opts["inline"] = lambda fi, node: fi.cls is rc
+                        try:
+                            if is_dev:
+                                it.exec_block(ast.parse("r.devices.remove(d)").body, Frame(None, rc.module, {"r": it.world.router, "d": me}))
+                                it.run_function(Fn(rc.find_method("register_device"), it.world.router), [me], {})
+                            else:
+                                it.run_function(Fn(rc.find_method("unregister_client"), it.world.router), [me], {})
+                                it.run_function(Fn(rc.find_method("register_client"), it.world.router), [me], {})
+                        finally:
+                            it.opts.clear()
+                            it.opts.update(saved)
+                        del it.events[nev:]
+                        return Const(None)
                     if me is peers[k] and not it.done:
                         it.done = True
                         nev = len(it.events)
@@ -220,6 +249,7 @@ def check_reentrant(ctx, rule, side):
                     _CURRENT_IT = None
                 it.world = w
                 it.served = []
+                it.served_inner = []
                 it.done = False
                 it.newcomer = Obj(w.dbase if is_dev else w.cbase, {}, label="newcomer")
                 m = message_obj(p, mcls, device=None if is_dev else "A")
@@ -228,7 +258,7 @@ def check_reentrant(ctx, rule, side):
 
             paths = explore(p, run, {"inline": lambda fi, node: fi.cls is rc and fi is not f, "call_effect": effect, "strict_keys": True})
             ctx.paths_enumerated += len(paths)
-            what = f"removes {side}{j}" + (" (itself)" if j == k else "") if isinstance(j, int) else "registers a new " + side
+            what = f"removes {side}{j}" + (" (itself)" if j == k else "") if isinstance(j, int) else ("leaves and registers again" if j == "rereg" else "sends a message of its own through the router" if j == "nested" else "registers a new " + side)
             if len(paths) != 1 or paths[0].outcome != "return":
                 ctx.undecided(rule, f.short, f"dispatch during which {side}{k} {what} is not decided by constant evaluation ({len(paths)} paths)", fi=f)
                 bad = True
@@ -249,6 +279,12 @@ def check_reentrant(ctx, rule, side):
                 elif gone in core and remover in core and core.index(gone) > core.index(remover):
                     extra = [gone]
             want = others + ([f"{side}{j} only if served before {side}{k}"] if isinstance(j, int) and j != k else ([f"{side}{j}"] if isinstance(j, int) else []))
+            if j == "nested":
+                inner = paths[0].interp.served_inner
+                allp = [f"{side}{i}" for i in range(N)]
+                if sorted(inner) != sorted(allp):
+                    miss = miss + [f"{x} (the inner message)" for x in allp if x not in inner]
+                    twice = twice + sorted({f"{x} (the inner message)" for x in inner if inner.count(x) > 1})
             if miss or twice or extra:
                 why = "; ".join(filter(None, [f"{miss} registered and entitled but not served" if miss else "", f"{twice} served twice" if twice else "", f"{extra} served after its removal" if extra else ""]))
                 ctx.violated(rule, f.short, f"three {side}s entitled to a message; while {side}{k} is served it {what}: served {served}, expected {want}: {why} (the table changed under the dispatch loop)", fi=f, text=f"reentrant:{side}:" + ("skipped" if miss else "twice" if twice else "late"), witness=f"{side}{k} {what} inside its {deliver}()")
